@@ -639,8 +639,8 @@ def state_graph(U, weighted, gen_ops, run_model_, max_depth=5, max_states=400):
     return hist
 
 
-def gen_obligations(tier, seed, universes, alphabet_, run_model_, gen_filter, stride_k=3, n_long=(12, 300),
-                    max_states=(100, 2000), max_depth=(4, 6)):
+def gen_obligations(tier, seed, universes, alphabet_, run_model_, gen_filter, stride_k=(3, 12), n_long=(12, 120),
+                    max_states=(100, 300), max_depth=(4, 5)):
     rng = random.Random(seed)
     out = []
     q = tier == "quick"
@@ -657,11 +657,8 @@ def gen_obligations(tier, seed, universes, alphabet_, run_model_, gen_filter, st
         for si, st in enumerate(states):
             hists = sg[st] if not q else sg[st][-1:]
             for base in hists:
-                if q:
-                    sel = [alpha[(si * 7 + seed + j * (len(alpha) // stride_k + 1)) % len(alpha)]
-                           for j in range(stride_k)]
-                else:
-                    sel = alpha
+                kk = stride_k[0 if q else 1]
+                sel = [alpha[(si * 7 + seed + j * (len(alpha) // kk + 1)) % len(alpha)] for j in range(kk)]
                 for op in sel:
                     out.append({"family": "hist", "layer": "state", "universe": uni, "weighted": weighted,
                                 "ops": base + [op]})
@@ -726,8 +723,8 @@ META = {
                  "listings); every single op; abstract states reachable within 4 ops (cap 100) x 3 ops (stride); 12 "
                  "seeded histories of length 4-6; weighted and unweighted; weights, metadata values and filter "
                  "value unbounded symbolic integers",
-        "thorough": "universes {0,1,2} and {'a','b','c'}; abstract states within 6 ops (cap 2000) x two histories x "
-                    "full alphabet; 300 seeded histories per configuration",
+        "thorough": "universes {0,1,2} and {'a','b','c'}; abstract states within 5 ops (cap 300) x two histories x "
+                    "12 ops (stride); 80 detours and 120 seeded histories per configuration",
     },
     "stand_ins": [],
     "outside_claim": [
